@@ -57,3 +57,13 @@ G('da.dt_dadd', 'date-core', 'dt_dadd', ARITH, ins=[(U, 'in_typ'), ('uint32_t', 
   setup='struct dt_d_s d = {DT_DUNK}; d.typ = (dt_dtyp_t)in_typ; d.u = in_u; struct dt_ddur_s dur = {DT_DURUNK}; dur.durtyp = (dt_durtyp_t)in_dt; dur.dv = in_n;',
   call='dt_dadd(d, dur)', ret='struct dt_d_s', replace=['dt_dadd_d', 'dt_dadd_w'] + UNR('dt_dadd_b', 'dt_dadd_m', 'dt_dadd_y'), solvers=SV,
   sweep={'in_typ': 'RND % 12', 'in_dt': '6 + 2 * (RND % 2)', 'in_n': '(int)(RND % 4000) - 2000'})
+
+# dt_ddiff, day differences (DT_DURD)
+DTYPS = ('DT_YMD', 'DT_YD', 'DT_DAISY', 'DT_LDN', 'DT_MDN')
+for t1 in DTYPS:
+    for t2 in DTYPS:
+        G('da.dt_ddiff.D.%s.%s' % (t1[3:], t2[3:]), 'date-core', 'dt_ddiff', ['C05', 'C11'], ins=[(U, 'in_t1'), ('uint32_t', 'in_u1'), (U, 'in_t2'), ('uint32_t', 'in_u2'), ('int', 'in_carry')],
+          fix={'in_t1': t1, 'in_t2': t2}, setup='struct dt_d_s d1 = {DT_DUNK}; d1.typ = (dt_dtyp_t)in_t1; d1.u = in_u1; struct dt_d_s d2 = {DT_DUNK}; d2.typ = (dt_dtyp_t)in_t2; d2.u = in_u2;',
+          call='dt_ddiff(DT_DURD, d1, d2, in_carry)', ret='struct dt_ddur_s', replace=['dt_conv_to_daisy'], solvers=SV,
+          tier='quick' if t1 == t2 or (t1, t2) in (('DT_YMD', 'DT_DAISY'), ('DT_YD', 'DT_YMD')) else 'thorough',
+          sweep={'in_u1': 'RND', 'in_u2': 'RND'})
